@@ -14,6 +14,7 @@ pub mod c13;
 pub mod c14;
 pub mod c15;
 pub mod c16;
+pub mod c17;
 pub mod c19;
 pub mod common;
 pub mod replay;
@@ -36,6 +37,7 @@ pub fn run(p: &str, thorough: bool, rest: &[String]) {
         "C14" => c14::run(thorough),
         "C15" => c15::run(thorough),
         "C16" => c16::run(thorough, rest),
+        "C17" => c17::run(thorough),
         "C19" => c19::run(thorough),
         _ => {
             eprintln!("unknown property {}", p);
